@@ -238,8 +238,22 @@ func (pr *Program) execute(p *PathCtx, ip *Interp, fn *ssa.Function) (res PathRe
 		switch e := r.(type) {
 		case pathEnd:
 			res = PathResult{End: e.kind, Msg: e.msg}
+			if e.kind == "deadlock" {
+				if ip.allowCrash {
+					res = PathResult{End: "crash", Msg: e.msg}
+					return
+				}
+				p.reachedNontrivial = true
+				p.obligations++
+				p.assertReach["no-deadlock"]++
+				p.violation("no-deadlock", "panic", e.msg, p.model)
+			}
 		case targetPanic:
 			res = PathResult{End: "panic", Msg: e.msg}
+			if ip.allowCrash {
+				res = PathResult{End: "crash", Msg: e.msg}
+				return
+			}
 			if !p.concrete && len(p.dec) < len(p.prefix) {
 				res = PathResult{End: "engine", Msg: "panic while replaying a prefix: " + e.msg}
 				return
